@@ -744,7 +744,7 @@ def main(tier, seed, replay=None):
     m_scs = mutant_scenarios()
     mjobs = []
     for name in MUTANTS:
-        mjobs += dfs_jobs(m_scs, mutant=name, limit=(300 if tier == 'quick' else None))
+        mjobs += dfs_jobs(m_scs, mutant=name, limit=(300 if tier == 'quick' else 2000))   # (two-call histories with two members have very many schedules)
     _s, mt = run_jobs(mjobs)
     o2 = common.Outcome('C19', tier, seed)
     mbad, _ = judge(o2, mt, 'mutants')
